@@ -91,6 +91,7 @@ void vf_atomic_point(void) {
   }
 }
 void vf_protect(void *obj, unsigned long size, void *lock) { (void)obj; (void)size; (void)lock; }
+void vf_protect_obj(void *obj, unsigned long size, void *lock) { (void)obj; (void)size; (void)lock; }
 void vf_unprotect_all(void) { }
 #else
 /* translated-C build: rt.h provides the interface; it only needs the choice vector */
